@@ -30,6 +30,7 @@ magnitude above the largest ratio observed on seeds 1..5 (reported in the eviden
 import json
 import os
 import random
+import warnings
 from fractions import Fraction as F
 
 import numpy as np
@@ -236,6 +237,21 @@ def impl_1d(c):
             mixed[nm] = float(np.abs(np.asarray(s2.coeffs) - ref).max())
         except Exception as e:
             mixed[nm] = 'raised %s: %s' % (type(e).__name__, str(e)[:80])
+    # the data type argument may be spelt any way numpy accepts; complex data on clamped spaces (the supported case)
+    if not b.periodic:
+        uc = u0 + 1j * u0[::-1]
+        sref = Spline1D(b, dtype=complex)
+        SplineInterpolator1D(b, dtype=complex).compute_interpolant(uc, sref)
+        for nm, dti in (('numpy.dtype(complex)', np.dtype(complex)), ('numpy.complex128', np.complex128), ("'complex128'", 'complex128'),
+                        ('data.dtype', uc.dtype)):
+            try:
+                s2 = Spline1D(b, dtype=dti)
+                with warnings.catch_warnings():
+                    warnings.simplefilter('ignore')
+                    SplineInterpolator1D(b, dtype=dti).compute_interpolant(uc, s2)
+                mixed['dtype=' + nm] = float(np.abs(np.asarray(s2.coeffs) - sref.coeffs).max())
+            except Exception as e:
+                mixed['dtype=' + nm] = 'raised %s: %s' % (type(e).__name__, str(e)[:80])
     out['mixed'] = mixed
     out['mixed_scale'] = float(np.abs(ref).max())
     if c.get('complex'):
@@ -534,8 +550,9 @@ def check_1d(chk, c, r, stats):
                 bound_m = KB * nb * EPS * kappa * max(r.get('mixed_scale', 0.0), 1e-300)
                 if isinstance(dv, str) or not dv <= bound_m:
                     chk.violation('%s.compute_interpolant:dtype-combination:%s' % (SITE1, nm),
-                                  'real data through a %s gives coefficients that differ from the real interpolation by %s (bound %.3g) on %s, %d cells'
-                                  % (nm.replace('/', ' filling a '), dv if isinstance(dv, str) else '%.3g' % dv, bound_m, tag, spd['nc']),
+                                  '%s gives coefficients that differ from the reference interpolation by %s (bound %.3g) on %s, %d cells'
+                                  % ('complex data through an interpolator built with ' + nm + ' (reference: dtype=complex)' if nm.startswith('dtype=')
+                                     else 'real data through a ' + nm.replace('/', ' filling a '), dv if isinstance(dv, str) else '%.3g' % dv, bound_m, tag, spd['nc']),
                                   dict(rep_j, dtype_combination=nm))
         # model coefficients
         if 'interp' in m:
